@@ -108,7 +108,7 @@ def gen_cases(tier, seed):
     rng.shuffle(pool)
     state = {"i": 0}
 
-    def extra(r, level):
+    def extra(r, level, shells):
         n = r.randint(1, 6 if level == "block" else 4)
         orders = []
         for _ in range(n):
@@ -121,24 +121,23 @@ def gen_cases(tier, seed):
             orders.append([0, 0, 0])
         r.shuffle(orders)
         mode = r.random()
-        if mode < 0.3:
+        if mode < 0.15:
             C = [Fraction(0)] * 3
-        elif mode < 0.7:
+        elif mode < 0.45:
+            C = list(r.choice(shells).coord)          # origin exactly on a shell centre (any of them)
+        elif mode < 0.8:
             C = [Fraction(r.randint(-40, 40), 16) for _ in range(3)]
         else:
             C = [Fraction(r.randint(-800, 800), 8) for _ in range(3)]  # far away
         return {"C": [str(c) for c in C], "orders": orders}
 
     cases = twoindex.gen_cases(tier, seed, salt=7, lmax_block=4, lmax_basis=3, extra=extra,
-                               nb_quick=12, nb_thorough=80, block_reps_thorough=3)
-    # put a centre-of-shell origin into some block cases
-    for c in cases:
-        if c["kind"] == "block" and rng.random() < 0.2:
-            c["C"] = list(c["a"]["coord"])
+                               nb_quick=40, nb_thorough=250, block_reps_thorough=4)
     nshift = 6 if tier == "quick" else 40
     from lib import gen_shell
     for _ in range(nshift):
-        basis = [gen_shell(rng, lmax=2, kmax=2, mmax=2) for _ in range(rng.randint(1, 3))]
+        from lib import gen_basis
+        basis = gen_basis(rng, rng.randint(1, 3), lmax=2, kmax=2, mmax=2)
         cases.append({"kind": "shift", "basis": [s.to_json() for s in basis],
                       "C": [str(Fraction(rng.randint(-32, 32), 16)) for _ in range(3)],
                       "C2": [str(Fraction(rng.randint(-32, 32), 16)) for _ in range(3)],
